@@ -22,16 +22,16 @@ the paused state -/
 theorem manager_paused_is_inert (cfg : Cfg) (i : In) (sl : Bool)
     (hc : i.connected = true) (hl : i.lockHeld = true) (hd : i.dcsStateErr = false) (hm : i.master.isSome)
     (ha : i.activeNodesErr = false) (hmaint : i.maint = .record false true sl) :
-    (stateManager cfg i).steps = [] ∧ (stateManager cfg i).next = .maintenance := by
-  sorry
+    (stateManager cfg i).steps = [] ∧ (stateManager cfg i).next = .maintenance :=
+  ManagerLemmas.manager_paused_is_inert cfg i sl hc hl hd hm ha hmaint
 
 /-- … and the same when the record cannot be read while the local marker file says "maintenance"
 (coordination outage / restart during maintenance) -/
 theorem manager_unreadable_with_file_is_inert (cfg : Cfg) (i : In)
     (hc : i.connected = true) (hl : i.lockHeld = true) (hd : i.dcsStateErr = false) (hm : i.master.isSome)
     (ha : i.activeNodesErr = false) (hmaint : i.maint = .err true) :
-    (stateManager cfg i).steps = [] ∧ (stateManager cfg i).next = .maintenance := by
-  sorry
+    (stateManager cfg i).steps = [] ∧ (stateManager cfg i).next = .maintenance :=
+  ManagerLemmas.manager_unreadable_with_file_is_inert cfg i hc hl hd hm ha hmaint
 
 /-- entering: the only actions are the configured semi-sync switch-off + list removal and the
 acknowledgement itself; nothing cluster-wide happens in that iteration -/
@@ -39,53 +39,53 @@ theorem manager_entering_only_acknowledges (cfg : Cfg) (i : In) (sl : Bool)
     (hc : i.connected = true) (hl : i.lockHeld = true) (hd : i.dcsStateErr = false) (hm : i.master.isSome)
     (ha : i.activeNodesErr = false) (hmaint : i.maint = .record false false sl) :
     (stateManager cfg i).steps = [Step.enterMaintenance i.enterMaintOk] ∧
-    ((stateManager cfg i).next = .maintenance ↔ i.enterMaintOk = true) := by
-  sorry
+    ((stateManager cfg i).next = .maintenance ↔ i.enterMaintOk = true) :=
+  ManagerLemmas.manager_entering_only_acknowledges cfg i sl hc hl hd hm ha hmaint
 
 /-- the paused handler: while the record is present and does not say "leave" (or cannot be read) it
 does nothing but keep the marker file, whatever else is true — across restarts and outages -/
 theorem paused_handler_is_inert (maintFile lock : Bool) (maint : MaintRead) (i : LeaveIn)
     (h : (∃ f, maint = .err f) ∨ ∃ l p, maint = .record l p false) :
     (stateMaintenance maintFile maint lock i).2 = .maintenance ∧
-    ∀ a ∈ (stateMaintenance maintFile maint lock i).1, a = Act.writeMaintFile := by
-  sorry
+    ∀ a ∈ (stateMaintenance maintFile maint lock i).1, a = Act.writeMaintFile :=
+  ManagerLemmas.paused_handler_is_inert maintFile lock maint i h
 
 /-- a restarted daemon that cannot reach the coordination service stays paused when the marker file exists -/
-theorem restart_without_dcs_stays_paused (lock : Bool) : stateFirstRun false true lock = .maintenance := by
-  sorry
+theorem restart_without_dcs_stays_paused (lock : Bool) : stateFirstRun false true lock = .maintenance :=
+  ManagerLemmas.restart_without_dcs_stays_paused lock
 
 /-- candidates follow only after the manager's acknowledgement, and never for light mode -/
 theorem candidates_follow_after_ack (connected upd lock : Bool) (maint : MaintRead) :
     stateCandidate connected upd maint lock = .maintenance ↔
-      (connected = true ∧ upd = true ∧ ∃ sl, maint = .record false true sl) := by
-  sorry
+      (connected = true ∧ upd = true ∧ ∃ sl, maint = .record false true sl) :=
+  ManagerLemmas.candidates_follow_after_ack connected upd lock maint
 
 /-- light maintenance only suppresses failover: with no pending failover-type request, an iteration
 under acknowledged light maintenance takes exactly the steps of the same iteration without
 maintenance, minus the filing of a failover (and the iteration goes on to repairs instead) -/
 theorem light_never_files_failover (cfg : Cfg) (i : In) (p sl : Bool) (hmaint : i.maint = .record true p sl) :
-    Step.issueFailover ∉ (stateManager cfg i).steps := by
-  sorry
+    Step.issueFailover ∉ (stateManager cfg i).steps :=
+  ManagerLemmas.light_never_files_failover cfg i p sl hmaint
 
 theorem light_parks_failover_requests (cfg : Cfg) (i : In) (sw : Switch)
     (hmaint : i.maint = .record true true false) (hsw : i.sw = .record sw) (hf : sw.failoverType = true) :
     ∀ s ∈ (stateManager cfg i).steps, s ≠ .switchStarted true ∧ s ≠ .switchStarted false ∧ s ≠ .switchRejected ∧
-      s ≠ .switchTimedOut ∧ s ≠ .switchFinished ∧ s ≠ .switchFailed := by
-  sorry
+      s ≠ .switchTimedOut ∧ s ≠ .switchFinished ∧ s ≠ .switchFailed :=
+  ManagerLemmas.light_parks_failover_requests cfg i sw hmaint hsw hf
 
 /-- planned switchovers continue under light maintenance exactly as without it -/
 theorem light_keeps_planned_switchovers (cfg : Cfg) (i : In) (sw : Switch)
     (hsw : i.sw = .record sw) (hf : sw.failoverType = false) :
-    (stateManager cfg { i with maint := .record true true false }).steps = (stateManager cfg { i with maint := .absent }).steps := by
-  sorry
+    (stateManager cfg { i with maint := .record true true false }).steps = (stateManager cfg { i with maint := .absent }).steps :=
+  ManagerLemmas.light_keeps_planned_switchovers cfg i sw hsw hf
 
 /-- repairs and the active-list update continue under light maintenance when the master is healthy -/
 theorem light_keeps_repairs (cfg : Cfg) (i : In) (master : String) (md cm : NodeState)
     (hc : i.connected = true) (hl : i.lockHeld = true) (hd : i.dcsStateErr = false) (hm : i.master = some master)
     (ha : i.activeNodesErr = false) (hmaint : i.maint = .record true true false) (hsw : i.sw = .absent)
     (hdm : i.dcs.get? master = some md) (hcm : i.cs.get? master = some cm) (hreach : cm.pingOk = true) :
-    Step.repairCluster ∈ (stateManager cfg i).steps ∧ Step.updateActiveNodes ∈ (stateManager cfg i).steps := by
-  sorry
+    Step.repairCluster ∈ (stateManager cfg i).steps ∧ Step.updateActiveNodes ∈ (stateManager cfg i).steps :=
+  ManagerLemmas.light_keeps_repairs cfg i master md cm hc hl hd hm ha hmaint hsw hdm hcm hreach
 
 /-- leaving succeeds only when exactly one alive master exists; that node becomes the recorded
 master, the rebuilt list is non-empty, and only then the record is deleted -/
@@ -94,21 +94,23 @@ theorem leave_iff_one_master (i : LeaveIn) :
       ∃ m rest a, mastersOf i.cs = [m] ∧ Act.setMasterHost m ∈ (leaveMaintenance i).1 ∧
         i.activeAfter = some (a :: rest) ∧ Act.deleteMaintenance ∈ (leaveMaintenance i).1) ∧
     (Act.deleteMaintenance ∈ (leaveMaintenance i).1 →
-      ∃ m rest a, mastersOf i.cs = [m] ∧ i.activeAfter = some (a :: rest)) := by
-  sorry
+      ∃ m rest a, mastersOf i.cs = [m] ∧ i.activeAfter = some (a :: rest)) :=
+  ManagerLemmas.leave_iff_one_master i
 
-/-- otherwise the mode is kept, and several masters raise the emergency marker (and nothing else) -/
+/-- otherwise the mode is kept, and several masters raise the emergency marker (and nothing else) —
+provided the host list could be refreshed; when that refresh fails nothing at all is done -/
 theorem leave_keeps_mode_otherwise (i : LeaveIn) (h : (mastersOf i.cs).length ≠ 1) :
     (leaveMaintenance i).2 = false ∧ Act.deleteMaintenance ∉ (leaveMaintenance i).1 ∧
     (∀ m, Act.setMasterHost m ∉ (leaveMaintenance i).1) ∧
-    ((mastersOf i.cs).length ≥ 2 → (leaveMaintenance i).1 = [Act.writeEmerge]) ∧
-    ((mastersOf i.cs).length = 0 → (leaveMaintenance i).1 = []) := by
-  sorry
+    (i.updateHostsOk = true → (mastersOf i.cs).length ≥ 2 → (leaveMaintenance i).1 = [Act.writeEmerge]) ∧
+    (i.updateHostsOk = false → (leaveMaintenance i).1 = []) ∧
+    ((mastersOf i.cs).length = 0 → (leaveMaintenance i).1 = []) :=
+  ManagerLemmas.leave_keeps_mode_otherwise i h
 
 /-- a failed leave keeps the daemon paused -/
 theorem failed_leave_stays_paused (i : LeaveIn) (h : (leaveMaintenance i).2 = false) :
-    (tryLeave true i).2 = .maintenance ∧ Act.removeMaintFile ∉ (tryLeave true i).1 := by
-  sorry
+    (tryLeave true i).2 = .maintenance ∧ Act.removeMaintFile ∉ (tryLeave true i).1 :=
+  ManagerLemmas.failed_leave_stays_paused i h
 
 -- non-vacuity
 private def mst : NodeState := { pingOk := true, isMaster := true }
